@@ -270,7 +270,7 @@ func drawMut(t *rapid.T) *pbt.Case {
 	var muts []string
 	for i := 0; i < n; i++ {
 		muts = append(muts, fmt.Sprintf("%s:%d:%d",
-			rapid.SampledFrom([]string{"swap-payload", "drop-payload", "truncate-details", "extra-details", "retarget-family", "message-type", "empty-payload", "garble-payload", "clear-message"}).Draw(t, "mut"),
+			rapid.SampledFrom([]string{"swap-payload", "drop-payload", "truncate-details", "extra-details", "retarget-family", "message-type", "empty-payload", "garble-payload", "clear-message", "garble-details", "garble-details"}).Draw(t, "mut"),
 			rapid.IntRange(0, 30).Draw(t, "a"), rapid.IntRange(0, 60).Draw(t, "b")))
 	}
 	c.SetList("mutations", muts)
@@ -333,6 +333,14 @@ func mutate(enc *errorspb.EncodedError, muts []string) {
 		case "garble-payload":
 			if d.FullDetails != nil && !strings.Contains(d.FullDetails.TypeUrl, "EncodedError") {
 				d.FullDetails = &types.Any{TypeUrl: d.FullDetails.TypeUrl, Value: []byte{0xff, byte(b), 0xff}}
+			}
+		case "garble-details":
+			// replace one reportable string (e.g. a printed stack trace) by other text
+			texts := []string{"", "x", "single line", "a\nb", "\n", "main.f\n\tfile.go:12\nunknown", "main.f\n\tfile.go", "f\n\t:\n", "‹x›", "\tfile.go:notanumber"}
+			if len(d.ReportablePayload) > 0 {
+				d.ReportablePayload[b%len(d.ReportablePayload)] = texts[a%len(texts)]
+			} else {
+				d.ReportablePayload = []string{texts[a%len(texts)]}
 			}
 		case "clear-message":
 			if len(ws) > 0 {
